@@ -11,7 +11,7 @@ prop = name.split("-")[0]
 checks = sys.argv[2:] or [prop]
 # second / third wave (SEED_WAVE=2 / 3): a/b are stored as c/d resp. e/f
 wave = os.environ.get("SEED_WAVE", "1")
-dst_name = name if wave == "1" else prop + "-" + {"2": {"a": "c", "b": "d"}, "3": {"a": "e", "b": "f"}, "4": {"a": "g", "b": "h"}}[wave][name.split("-")[1]]
+dst_name = name if wave == "1" else prop + "-" + {"2": {"a": "c", "b": "d"}, "3": {"a": "e", "b": "f"}, "4": {"a": "g", "b": "h"}, "5": {"a": "i", "b": "j"}}[wave][name.split("-")[1]]
 d = tempfile.mkdtemp(prefix="seedeval-", dir="/var/tmp")
 subprocess.run(["rsync", "-a", "--exclude", ".git", "--exclude", "__pycache__", "/repo/", d + "/"], check=True)
 env = dict(os.environ, PYTHONPATH=d, KCONFIG_REPORT_VERBOSITY="quiet")
